@@ -141,7 +141,15 @@ def judge(ctx, prop, name, trace, files, replay_workers=0):
             ctx.report(why, writer, "%s trace line %d of %s" % (r["id"], r["line"], name))
     ctx.traces_ok += n - len(bad)
     if replay_workers:
-        out, rc, wall = ctx.tlc("IndexedReplay.tla", "IndexedReplay.cfg", workers=replay_workers, env={"TRACE": trace}, timeout=1500)
+        try:
+            out, rc, wall = ctx.tlc("IndexedReplay.tla", "IndexedReplay.cfg", workers=replay_workers, env={"TRACE": trace}, timeout=1500 if ctx.tier == "quick" else 3400)
+        except MachineryError as e:
+            # the model replay only ever yields drift notes: running out of its time budget on a busy machine says nothing
+            # about the code and must not fail the check
+            if "TLC timeout" not in str(e):
+                raise
+            ctx.notes.append("model replay of %s (IndexedReplay.tla, implementation layer) not completed within its time budget: drift not evaluated for this drive" % name)
+            return
         if "Model checking completed" not in out:
             raise MachineryError("model replay failed:\n" + out[-3000:])
         drifts = re.findall(r'<<"DRIFT", (\d+), "(\w+)">>', out)
